@@ -14,6 +14,9 @@ def run(ctx):
     # cancelled callers), incl. ServedFromCache: a call that found a valid entry never asks upstream before it expires
     # unbounded design-level result (any number of goroutines, keys, generations, clock range, TTL lists): TLAPS
     ctx.tlaps("ResolverCacheProof", deps=("ResolverCache",), theorem="Spec => [](Fresh /\\ EntryExact /\\ KeyOK), any number of goroutines/keys/objects, MinOf uninterpreted")
+    if not ctx.quick:
+        ctx.tlaps("ResolverCacheServedProof", deps=("ResolverCache",), theorem="Spec => []ServedFromCache (a call that found a valid entry never asks upstream before "
+                  "its expiry), any number of goroutines/keys/objects, evictions/failures/cancellations; MinOf only assumed natural-valued", timeout=3000)
     ctx.mc("ResolverCache", "MCResolverCache_concq.cfg" if ctx.quick else "MCResolverCache_conc.cfg", timeout=3000)
     if ctx.replay:
         cases = [json.load(open(ctx.replay))["replay"]["case"]]
